@@ -205,23 +205,25 @@ class UdpInverterProtocol(InverterProtocol, asyncio.DatagramProtocol):
                 self._close_transport()
 
     async def _send_request_with_retries(self, command: ProtocolCommand) -> Future:
-        try:
-            await self._connect()
-            response_future = asyncio.get_running_loop().create_future()
-            self._send_request(command, response_future)
-            await response_future
-            return response_future
-        except asyncio.CancelledError:
-            if self._retry < self.retries:
-                self._retry += 1
-                if not self.keep_alive:
-                    self._close_transport()
-                return await self._send_request_with_retries(command)
-            return self._max_retries_reached()
-        except OSError:
-            # the request ends with a socket error (e.g. the socket for a retry could not be created)
-            self._retry = 0
-            raise
+        # a loop, not a recursion: the number of retries must not be limited by the interpreter's stack
+        while True:
+            try:
+                await self._connect()
+                response_future = asyncio.get_running_loop().create_future()
+                self._send_request(command, response_future)
+                await response_future
+                return response_future
+            except asyncio.CancelledError:
+                if self._retry < self.retries:
+                    self._retry += 1
+                    if not self.keep_alive:
+                        self._close_transport()
+                    continue
+                return self._max_retries_reached()
+            except OSError:
+                # the request ends with a socket error (e.g. the socket for a retry could not be created)
+                self._retry = 0
+                raise
 
     def _send_request(self, command: ProtocolCommand, response_future: Future) -> None:
         """Send message via transport"""
@@ -367,26 +369,28 @@ class TcpInverterProtocol(InverterProtocol, asyncio.Protocol):
                 self._lock.release()
 
     async def _send_request_with_retries(self, command: ProtocolCommand) -> Future:
-        try:
-            await asyncio.wait_for(self._connect(), timeout=5)
-            response_future = asyncio.get_running_loop().create_future()
-            self._send_request(command, response_future)
-            await response_future
-            return response_future
-        except asyncio.CancelledError:
-            if self._retry < self.retries:
-                if self._timer:
-                    logger.debug("Connection broken error.")
-                self._retry += 1
-                self._close_transport()
-                return await self._send_request_with_retries(command)
-            return self._max_retries_reached()
-        except (ConnectionRefusedError, TimeoutError, OSError, asyncio.TimeoutError):
-            if self._retry < self.retries:
-                logger.debug("Connection refused error.")
-                self._retry += 1
-                return await self._send_request_with_retries(command)
-            return self._max_retries_reached()
+        # a loop, not a recursion: the number of retries must not be limited by the interpreter's stack
+        while True:
+            try:
+                await asyncio.wait_for(self._connect(), timeout=5)
+                response_future = asyncio.get_running_loop().create_future()
+                self._send_request(command, response_future)
+                await response_future
+                return response_future
+            except asyncio.CancelledError:
+                if self._retry < self.retries:
+                    if self._timer:
+                        logger.debug("Connection broken error.")
+                    self._retry += 1
+                    self._close_transport()
+                    continue
+                return self._max_retries_reached()
+            except (ConnectionRefusedError, TimeoutError, OSError, asyncio.TimeoutError):
+                if self._retry < self.retries:
+                    logger.debug("Connection refused error.")
+                    self._retry += 1
+                    continue
+                return self._max_retries_reached()
 
     def _send_request(self, command: ProtocolCommand, response_future: Future) -> None:
         """Send message via transport"""
